@@ -477,6 +477,7 @@ theorem sim_succ (f : Nat) (ih : Sim f) : Sim (f+1) where
   struct1loop := sim_struct1loop ih
   struct1 := sim_struct1 ih
   union1 := sim_union1 ih
+  unionrest := sim_unionrest ih
 
 /-- the simulation holds for every function of the parser and every fuel -/
 theorem sim_all : ∀ f, Sim f
